@@ -252,6 +252,7 @@ def read_chunk(info, buf, limit, md, col, nrows, where):
     encs_used = set()
     first_data_pos = None
     pages = []
+    page_kinds = []     # (page_type, encoding) of every page, for encoding_stats
     tlen = leaf.se.get("type_length")
     chunk_vals_start = len(col.values)
     chunk_def_start = len(col.defs)
@@ -291,6 +292,7 @@ def read_chunk(info, buf, limit, md, col, nrows, where):
             if p2 != len(raw):
                 info.notes.append(("DICT_TRAILING", where, "%d bytes after the dictionary values" % (len(raw) - p2)))
             encs_used.add(dh.get("encoding"))
+            page_kinds.append((ph.get("type"), dh.get("encoding")))
             pages.append(("dict", dh.get("num_values", 0)))
         elif ptyp in ("DATA_PAGE", "DATA_PAGE_V2"):
             if first_data_pos is None:
@@ -305,6 +307,7 @@ def read_chunk(info, buf, limit, md, col, nrows, where):
             nv = h.get("num_values", 0)
             enc = ENC.get(h.get("encoding"))
             encs_used.add(h.get("encoding"))
+            page_kinds.append((ph.get("type"), h.get("encoding")))
             if v2:
                 info.counts["v2_pages"] += 1
                 rl, dl = h.get("repetition_levels_byte_length", 0), h.get("definition_levels_byte_length", 0)
@@ -367,6 +370,17 @@ def read_chunk(info, buf, limit, md, col, nrows, where):
     declared = set(md.get("encodings") or [])
     if not encs_used <= declared:
         info.diag("ENCODINGS_LIST", where, "encodings used %s not all in ColumnMetaData.encodings %s" % (sorted(encs_used), sorted(declared)))
+    es = md.get("encoding_stats")
+    if es:
+        actual = {}
+        for pg in page_kinds:
+            actual[pg] = actual.get(pg, 0) + 1
+        claimed = {}
+        for e_ in es:
+            key = (e_.get("page_type"), e_.get("encoding"))
+            claimed[key] = claimed.get(key, 0) + (e_.get("count") or 0)
+        if claimed != actual:
+            info.diag("ENCODING_STATS", where, "encoding_stats %s, pages present %s (page_type, encoding) -> count" % (sorted(claimed.items()), sorted(actual.items())))
     st = md.get("statistics")
     if st is not None and st.get("null_count") is not None and col.max_rep == 0 and st["null_count"] != n_nulls:
         info.diag("NULL_COUNT", where, "statistics.null_count %d, levels say %d" % (st["null_count"], n_nulls))
